@@ -1576,7 +1576,18 @@ def _read_buffers(
                     from ..path.entities import Line
 
                     kwargs["vertices"] = access[attr["POSITION"]]
-                    kwargs["entities"] = [Line(points=np.arange(len(kwargs["vertices"])))]
+                    # GL_LINES are independent segments: (0, 1), (2, 3), ...
+                    # so only join consecutive segments into one polyline
+                    # where a segment starts exactly where the last one ended
+                    pairs = len(kwargs["vertices"]) // 2
+                    ends = kwargs["vertices"][1 : 2 * pairs - 1 : 2]
+                    starts = kwargs["vertices"][2 : 2 * pairs : 2]
+                    breaks = np.nonzero((ends != starts).any(axis=1))[0] + 1
+                    kwargs["entities"] = [
+                        Line(points=np.arange(chunk[0] * 2, chunk[-1] * 2 + 2))
+                        for chunk in np.split(np.arange(pairs), breaks)
+                        if len(chunk) > 0
+                    ]
 
                     # custom attributes starting with a `_`
                     custom = {
